@@ -351,8 +351,12 @@ def c10(tier, seed):
     # the directed part: vector parameters of lengths 1000 -> 300 -> 100000 -> ... -> 25 on one handle, every evaluation reproduced on a fresh twin
     for fl in ("exc", "plain"):
         shards.append(Shard(hist_exe(fl), ["--mode", "sweep", "--seed", str(seed), "--shard", "901"], fl + "/sweep+large-vectors", env=NOLEAK))
+    # one and the same call 2^18 (thorough: 2^24) times in a row on eight solutions: state that builds up with the number of calls
+    for i in range(2 if tier == "quick" else 4):
+        shards.append(Shard(hist_exe("exc"), ["--mode", "mill", "--steps", str(1 << 18 if tier == "quick" else 1 << 24), "--seed", str(seed), "--shard", str(910 + i)], "exc/mill/%d" % i, env=NOLEAK, timeout=7200))
     agg.add_shards(run_shards(shards))
     cov = hist_cov(agg, "Focus: evaluator calls (45%).")
+    cov["identical_calls_in_a_row(mill shards)"] = agg.count("identical_calls_in_a_row")
     floors = [("at least 5000 evaluator calls", agg.count("evaluations") >= 5000), ("at least 1000 repeated calls", agg.count("repeated_evaluations") >= 1000),
               ("at least 300 twin-handle reproductions", agg.count("twin_reproductions") >= 300), ("at least 30 solution types evaluated", agg.ndistinct("solutions_initialised") >= 30)]
     return finish(agg, "exploration", cov, HIST_ASSUME, floors)
